@@ -136,7 +136,7 @@ def shape_obligations(e, n, tier, group=None):
     wt.update({("y%d" % i): ys[i] for i in range(n)})
     try:
         dom = RealDomain(False)
-        res = sl.explore(e, "constrained_spline", n, dom)
+        res = sl.explore(e, "constrained_spline", n, dom, pre=pre)
     except (Unsupported, PathLimit) as ex:
         e.not_encoded("spline[n=%d]" % n, "whole-function encoding of constrained_spline", ex, FUNCS)
         return
@@ -203,6 +203,9 @@ def case_obligations(e, n, tier, tag, assum, decisions, segs, xs, ys, wt, nice, 
         goals = []
         for i in range(n - 1):
             goals += [coef[i][3] == 0, coef[i][2] == 0, coef[i][1] == s, coef[i][0] == ys[0] - s * xs[0]]
+        if continue_collinear:
+            rcc, _, _ = e.check(assum + col, cap_ms=5000)
+            continue_collinear = rcc != z3.unsat  # a path that collinear data cannot take says nothing about them
         if continue_collinear:
             e.prove("%s:collinear" % tag, "collinear knots (common slope s) give every cubic the coefficients [y0-s*x0, s, 0, 0]",
                     assum + col, z3.And(*goals), dom_name="real", functions=FUNCS, witness_terms=wt, role="spline-collinear",
